@@ -1,3 +1,4 @@
 import ArimProofs.C01
 import ArimProofs.C13
 import ArimProofs.C15
+import ArimProofs.C20
